@@ -610,3 +610,15 @@ def r12_8(run):
 
 
 RULES = [("R12.1", r12_1), ("R12.2", r12_2), ("R12.3", r12_3), ("R12.4", r12_4), ("R12.5", r12_5), ("R12.6", r12_6), ("R12.7", r12_7), ("R12.8", r12_8)]
+
+
+def r12_9(run):
+    """a thermal-only run that starts from a stored hydraulic solution equals the sequential run: the stored vector is the whole
+    hydraulic state, NaN entries of unsupplied parts included, and use_given_hydraulic_results writes all of it into PINIT / MDOTINIT
+    (entries that are skipped leave the start values of the pit in place, and the thermal-only run then reports pressures the
+    sequential run does not) -- shared with C10 R10.9."""
+    from .c10 import r10_9
+    r10_9(run)
+
+
+RULES.append(("R12.9", r12_9))
